@@ -182,6 +182,9 @@ func runC10(c *Ctx) []Obligation {
 		{Prop: P, ID: "keys-exact.sorted-before-publish", Fn: "(" + hcPkg + ".MemoryCache).Commit",
 			Barrier: []string{`^sort\.Strings\(`}, Target: StoreTo(`\.orderedKeys$`), TargetMustExist: true,
 			Why: "the key index is sorted before it is stored in the snapshot"},
+		{Prop: P, ID: "snapshot-owned.fresh-before-fill", Fn: "(" + hcPkg + ".MemoryCache).Commit",
+			Barrier: []string{`store:pastHeights\[.*\]\.data = makemap$`, `^builtin\.clear\(.*pastHeights`}, Target: StoreTo(`pastHeights\[.*\]\.data\[`),
+			Why: "a recycled snapshot slot is emptied (fresh map) before the current data is copied into it"},
 	})...)
 	out = append(out, c.c10IndexGuarded(P)...)
 	out = append(out, c.c10BoundSplit(P)...)
@@ -303,6 +306,7 @@ func (c *Ctx) c10Rollback(P string) Obligation {
 func (c *Ctx) c10SnapshotOwned(P string) []Obligation {
 	o := c.obl(P, "snapshot-owned.fresh-map", "("+hcPkg+".MemoryCache).Commit", "every store to StoreAtHeight.data of a past-height slot is a map made in that function")
 	o2 := c.obl(P, "snapshot-owned.only-commit-writes", hcPkg+".StoreAtHeight.data", "map updates and deletes on a past-height snapshot occur only in Commit; Set/Remove touch only the current map")
+	cleared, partial := false, false
 	for fn := range c.A.AllFns {
 		if fn.Blocks == nil || fnPkgPath(fn) != repoMod+"/"+hcPkg {
 			continue
@@ -340,14 +344,26 @@ func (c *Ctx) c10SnapshotOwned(P string) []Obligation {
 			}
 		}
 		// delete(m, k) on a snapshot
-		for _, s := range c.callSites(fn, `^builtin\.delete\(`) {
+		for _, s := range c.callSites(fn, `^builtin\.(delete|clear)\(`) {
 			if strings.Contains(s.Desc, "pastHeights") {
 				o2.Facts++
-				o2.fail(c.A.Pos(s.Ins.Pos()), "%s deletes from a past-height snapshot map", name)
+				if name != "("+hcPkg+".MemoryCache).Commit" {
+					o2.fail(c.A.Pos(s.Ins.Pos()), "%s deletes from a past-height snapshot map", name)
+				} else if strings.HasPrefix(s.Desc, "builtin.clear(") {
+					cleared = true
+				} else {
+					partial = true
+				}
 			}
 		}
 	}
-	if o.Facts == 0 {
+	switch {
+	case o.Facts > 0 || cleared:
+	case o2.Facts > 0 && partial:
+		o.unresolved("Commit refills a recycled snapshot map after deleting from it; that every stale key is removed cannot be established")
+	case o2.Facts > 0:
+		o.fail("", "Commit refills the map of a recycled snapshot slot without replacing it by a fresh map (or clearing it): keys deleted since that slot's previous height stay readable at the new height")
+	default:
 		o.unresolved("no store to a snapshot's data field found")
 	}
 	if o2.Facts == 0 {
